@@ -6,10 +6,10 @@ from vlib import *
 
 FES = ["byte-le", "byte-be", "sample", "channel"]
 RATES = [8000, 16000, 22050, 24000, 32000, 44100, 48000, 88200, 96000, 176400, 192000,   # table codes
-         1000, 255000, 12345, 65535, 655350, 123450, 123457, 0, 1, 1048575]            # kHz / Hz / tens-of-Hz / STREAMINFO codes
+         1000, 255000, 12345, 65535, 655350, 123450, 123457, 0, 1, 1048575, 255000, 256000, 257000, 655360, 1000000]            # kHz / Hz / tens-of-Hz / STREAMINFO codes
 DEPTHS = [1, 2, 4, 7, 8, 12, 16, 17, 20, 24, 31, 32]
 SIGNALS = ["noise", "small", "sine", "walk", "const", "zero", "extremes", "stereo", "wasted", "ramp", "impulse",
-           "panfirst", "panlast", "chanmix", "blockmix", "chanmix", "blockmix", "fade", "fade64", "burst", "constlo", "consthi", "anti", "anti"]
+           "panfirst", "panlast", "chanmix", "blockmix", "chanmix", "blockmix", "fade", "fade64", "burst", "constlo", "consthi", "anti", "anti", "hitone"]
 WINDOWS = ["rect", "hann", "tukey", "tukey1", "tukey0"]
 
 
